@@ -467,7 +467,17 @@ def mapDecode : JTy → Json → Except Err Val
     let s ← asStr (← ofOpt (jlookup key m))
     let bs ← ofOpt (decodeHex s)
     pure (.bytes (fit n bs))
-  | .typedBytes _ _ _ _, _ => .error .err      -- by value: the decoder expects a hex string, gets the object
+  -- by value the kind is an ordinary byte array / byte slice: the decoder expects a bare hex string
+  -- (and so can never read the object the encoder writes for a type with an object code)
+  | .typedBytes false (some n) _ _, j => do
+    let s ← asStr j
+    let bs ← ofOpt (decodeHex s)
+    pure (.bytes (fit n bs))
+  | .typedBytes false none _ _, j => do
+    let s ← asStr j
+    let bs ← ofOpt (decodeHex s)
+    pure (.bytes bs)
+  | .typedBytes true none _ _, _ => .error .err   -- pointer to a slice: no branch
   | .u256, j => do
     let s ← asStr j
     let n ← ofOpt (decodeBig s)
